@@ -26,7 +26,12 @@ def make_ast_lemma(fname, qual):
     def lemma(ev):
         a = c01._normal_form(W + fname, qual)
         b = c01._normal_form(A + fname, qual)
-        return z3.BoolVal(a == b)
+        if a != b:
+            # textual identity is a SUFFICIENT condition for equivalence, used as a shortcut: where the two copies are spelled
+            # differently the shortcut does not apply - undecided here, the differential bounded layer decides
+            from pyvc.engine import Unsupported
+            raise Unsupported("%s: the WSGI and the ASGI copy are no longer the same text (syntactic shortcut not applicable)" % qual)
+        return z3.BoolVal(True)
     lemma.note = "%s: the WSGI and the ASGI copy are the same program after await-erasure" % qual
     return lemma
 
